@@ -13,7 +13,6 @@ import (
 	"sort"
 	"strings"
 	"sync"
-	"syscall"
 	"time"
 
 	"github.com/johannesboyne/gofakes3"
@@ -128,7 +127,7 @@ func (db *SingleBucketBackend) getBucketWithFilePrefixLocked(bucket string, pref
 	if err != nil && prefixPath != "" {
 		// The prefix names a directory that does not exist (or a file): no key
 		// can match it, which is an empty listing and not an error.
-		if stat, serr := db.fs.Stat(filepath.FromSlash(prefixPath)); os.IsNotExist(serr) || errors.Is(serr, syscall.ENOTDIR) || (serr == nil && !stat.IsDir()) {
+		if stat, serr := db.fs.Stat(filepath.FromSlash(prefixPath)); notExist(serr) || (serr == nil && !stat.IsDir()) {
 			return gofakes3.NewObjectList(), nil
 		}
 	}
